@@ -639,6 +639,7 @@ pub fn run_scenario<W: Write>(sc: &Value, out: &mut W) -> std::io::Result<()> {
             ev.insert("obs".into(), json!({}));
         }
         ctx.results.push(res);
+        PROGRESS.fetch_add(1, std::sync::atomic::Ordering::Relaxed);
         writeln!(out, "{}", Value::Object(ev))?;
         if crashed {
             break;
@@ -646,6 +647,31 @@ pub fn run_scenario<W: Write>(sc: &Value, out: &mut W) -> std::io::Result<()> {
     }
     writeln!(out, "{}", json!({"ev": "end", "sc": id}))?;
     out.flush()
+}
+
+/// progress counter for the watchdog: bumped after every action
+pub static PROGRESS: std::sync::atomic::AtomicU64 = std::sync::atomic::AtomicU64::new(0);
+
+/// A call into ax that does not return within `secs` is a hang: the process exits with status 3 and the
+/// supervisor (lib/vlib.py) records `hang` for the scenario in flight.
+pub fn start_watchdog(secs: u64) {
+    std::thread::spawn(move || {
+        let mut last = PROGRESS.load(std::sync::atomic::Ordering::Relaxed);
+        let mut idle = 0u64;
+        loop {
+            std::thread::sleep(std::time::Duration::from_millis(250));
+            let now = PROGRESS.load(std::sync::atomic::Ordering::Relaxed);
+            if now == last {
+                idle += 250;
+                if idle >= secs * 1000 {
+                    std::process::exit(3);
+                }
+            } else {
+                idle = 0;
+                last = now;
+            }
+        }
+    });
 }
 
 pub fn run_file(input: &str, output: &str, skip: usize) -> std::io::Result<()> {
